@@ -117,6 +117,7 @@ func runC13(r *Run) {
 	extraHdr := t.Draw(3)
 	clientTimeout := t.Draw(2) == 1
 	attempts := 1 + t.Draw(2)
+	varyOpts := t.Draw(2) == 1
 	r.S.MaxSim = 3 * time.Minute
 	r.S.MaxSteps = 30000
 	r.S.Stick = []int{0, 60}[t.Draw(2)]
@@ -325,7 +326,16 @@ func runC13(r *Run) {
 			r.S.Park("a.dialer")
 			ctx, cancel := context.WithTimeout(context.Background(), 10*time.Second)
 			start := r.S.Now()
-			c, _, err := websocket.Dial(ctx, "ws://sim.test/path?q=1", opts)
+			o := opts
+			if i > 0 && varyOpts {
+				// the same caller-owned header map, other options: what this attempt
+				// offers must follow ITS options, not what an earlier Dial left behind
+				o2 := *opts
+				o2.Subprotocols = nil
+				o2.CompressionMode = websocket.CompressionDisabled
+				o = &o2
+			}
+			c, _, err := websocket.Dial(ctx, "ws://sim.test/path?q=1", o)
 			dr := dialRes{c: c, err: err, took: r.S.Now() - start}
 			if c != nil {
 				r.Track(c)
@@ -372,20 +382,24 @@ func runC13(r *Run) {
 			r.Violate("request-key-reused", s2, "attempt %d reuses Sec-WebSocket-Key %q", i, rec.key)
 		}
 		keys[rec.key] = true
-		wantProto := strings.Join(subs, ",")
+		aSubs, aMode := subs, mode
+		if i > 0 && varyOpts {
+			aSubs, aMode = nil, websocket.CompressionDisabled
+		}
+		wantProto := strings.Join(aSubs, ",")
 		gotProto := strings.ReplaceAll(strings.Join(h.Values("Sec-Websocket-Protocol"), ","), " ", "")
 		if gotProto != wantProto {
 			r.Violate("request-subprotocols", s2, "attempt %d: offered subprotocols %q, options say %q", i, gotProto, wantProto)
 		}
 		wantExt := ""
-		switch mode {
+		switch aMode {
 		case websocket.CompressionContextTakeover:
 			wantExt = "permessage-deflate"
 		case websocket.CompressionNoContextTakeover:
 			wantExt = "permessage-deflate;client_no_context_takeover;server_no_context_takeover"
 		}
 		if g := strings.ReplaceAll(h.Get("Sec-Websocket-Extensions"), " ", ""); g != wantExt {
-			r.Violate("request-extensions", s2, "attempt %d: extension offer %q, mode %d wants %q", i, g, mode, wantExt)
+			r.Violate("request-extensions", s2, "attempt %d: extension offer %q, mode %d wants %q", i, g, aMode, wantExt)
 		}
 		wantHost := "sim.test"
 		if hostOverride {
@@ -407,7 +421,8 @@ func runC13(r *Run) {
 			r.Violate("conn-xor-error", sig, "attempt %d: Dial returned conn=%v err=%v", i, dr.c != nil, dr.err)
 			continue
 		}
-		if dontCare {
+		if dontCare || i > 0 && varyOpts {
+			// (the varied attempt is there for the request side only)
 			continue
 		}
 		if accept && dr.c == nil {
